@@ -147,6 +147,10 @@ where
             self.clear();
         }
 
+        // Popping from the back shrinks the container, so the consumed
+        // prefix may now exceed half of it.
+        self.maybe_slide();
+
         self.check_rep();
         Some(ret)
     }
